@@ -68,3 +68,15 @@ let cpstr t = let n = int t in times n (fun () -> n_of_int (int t))
 
 let hexs (l : Float64.t list) = String.concat " " (List.map hex_of_float l)
 let opt_hex = function None -> "nan" | Some f -> hex_of_float f
+
+(* stdin -> one result line per non-empty input line *)
+let main_loop (f : string -> string) : unit =
+  try
+    while true do
+      let line = input_line stdin in
+      if String.trim line <> "" then begin
+        let r = try f line with Failure m -> "driver-failure " ^ m | Stack_overflow -> "driver-stack-overflow" in
+        print_string r; print_newline ()
+      end
+    done
+  with End_of_file -> ()
